@@ -3,7 +3,7 @@
 import ast
 
 from .. import AnalysisError
-from ..astutil import src, call_name, dotted, walk_local, try_fold, ancestors
+from ..astutil import path_conditions, src, call_name, dotted, walk_local, try_fold, ancestors
 from ..fn import FA
 from ..normal import canon_expr
 from ..poly import poly_of, NotPoly, Poly
@@ -26,8 +26,8 @@ META = {
         'resized to (nfiber, npix); C16.TILING - spec_append allocates zeros of shape (nrows1+nrows2, max(npix1+nadd1, '
         'npix2+nadd2)), stores rows [0,nrows1) and [nrows1,nrows) with column slices of the sources\' own widths starting '
         'at nadd_i, at most one nadd_i non-zero with value |pixshift|, and has no return path that bypasses this. '
-        'C16.NO-MEMO - readspec and the file-location helpers it calls keep no module-level memo. C16.LOCKSTEP also: the request vectors are filled by position, never through a mask on the VALUE of another request vector; C16.ROWSEL also: on the znum path the row is exactly (fibre-1)*nper + znum - 1 (polynomial normal form over all reaching definitions). NOT decided: correctness of file location itself (spec_path, latest_mjd), optional files present for some plates only, the align arithmetic.'),
-    'floors': {'C16.INV-PERM': 3, 'C16.REORDER-ALL': 5, 'C16.LOCKSTEP': 6, 'C16.ROWSEL': 4, 'C16.LOGLAM': 3, 'C16.TILING': 6, 'C16.NO-MEMO': 3},
+        'C16.NO-MEMO - readspec and the file-location helpers it calls keep no module-level memo. C16.LOCKSTEP also: the request vectors are filled by position, never through a mask on the VALUE of another request vector; C16.ROWSEL also: on the znum path the row is exactly (fibre-1)*nper + znum - 1 (polynomial normal form over all reaching definitions). C16.PATH-KW - the per-file spec_path() call receives the topdir keyword that latest_mjd() honours; C16.LOGLAM-PAD - the zero-padded wavelength image is rebuilt from each row\'s COEFF0/COEFF1 over the padded width on every path; NOT decided: correctness of file location itself (spec_path, latest_mjd), optional files present for some plates only, the align arithmetic.'),
+    'floors': {'C16.PATH-KW': 1, 'C16.LOGLAM-PAD': 1, 'C16.INV-PERM': 3, 'C16.REORDER-ALL': 5, 'C16.LOCKSTEP': 6, 'C16.ROWSEL': 4, 'C16.LOGLAM': 3, 'C16.TILING': 6, 'C16.NO-MEMO': 3},
 }
 
 SPEC1D = 'pydl/pydlspec2d/spec1d.py'
@@ -321,6 +321,53 @@ def _rowsel_forms(sl, fa, depth=0):
     return [(src(sl), False)]
 
 
+def check_location(ctx, repo):
+    """C16.PATH-KW: every place readspec turns a plate into a directory honours the same location keywords.  latest_mjd() receives
+    **kwargs (path / topdir / run2d); the per-file spec_path() call must hand on topdir as well, or the MJD is looked up in one tree and
+    the files are read from another.
+    C16.LOGLAM-PAD: the wavelength image is accumulated block by block through spec_append(), which pads shorter blocks with zeros; after
+    the loop it is rebuilt over the padded width from each row's own COEFF0 / COEFF1 on every path, not only under align=."""
+    f = repo.func(SPEC1D, 'readspec')
+    fa = FA(f)
+    kw = f.node.args.kwarg.arg if f.node.args.kwarg else None
+    ctx.need(kw is not None, 'readspec: **kwargs parameter not found')
+    g = repo.func(SPEC1D, 'spec_path')
+    calls = [c for c in walk_local(f.node) if isinstance(c, ast.Call) and call_name(c) == 'spec_path' and repo.resolve_call(c, f) is g]
+    ctx.need(calls, 'readspec: spec_path() call not found')
+    for c in calls:
+        star = any(k.arg is None and isinstance(k.value, ast.Name) and k.value.id == kw for k in c.keywords)
+        bound = dict(zip(g.params, c.args))
+        bound.update({k.arg: k.value for k in c.keywords if k.arg})
+        td = bound.get('topdir')
+        from_kw = td is not None and any(isinstance(x, ast.Name) and x.id == kw for x in ast.walk(fa.deep(td))) and "'topdir'" in src(fa.deep(td))
+        ctx.check('C16.PATH-KW', star or from_kw, f, c, 'spec_path() in the file loop receives the caller\'s topdir (%s)' % ('**kwargs' if star else src(td) if td is not None else ''),
+                  msg='readspec looks the MJD up with latest_mjd(**kwargs), which honours topdir=, but builds the file names with `%s`, which does not: with '
+                      'topdir= the spectra are read from the tree named by the environment (rows from another reduction, or FileNotFoundError)' % src(c)[:70],
+                  construct='spec_path without topdir: ' + src(c)[:60])
+    # LOGLAM-PAD
+    loops = [n for n in f.node.body if isinstance(n, ast.For) and any(isinstance(x, ast.Call) and call_name(x) == 'spec_append' for x in ast.walk(n))]
+    ctx.need(len(loops) == 1, 'readspec: file loop not found')
+    after = f.node.body[f.node.body.index(loops[0]) + 1:]
+    rebuilt = []
+    for st in after:
+        for x in ast.walk(st):
+            if isinstance(x, ast.Assign) and len(x.targets) == 1 and isinstance(x.targets[0], ast.Subscript) and try_fold(x.targets[0].slice) == 'loglam':
+                rebuilt.append(x)
+    pols = set()
+    for x in rebuilt:
+        cs = [(t_, pol) for t_, pol in path_conditions(x)]
+        if not cs:
+            pols |= {True, False}
+        for t_, pol in cs:
+            if "'align'" in src(t_):
+                pols.add(pol)
+    ctx.check('C16.LOGLAM-PAD', pols == {True, False}, f, rebuilt[0] if rebuilt else loops[0],
+              'after the loop loglam is rebuilt over the padded width with and without align= (%d assignment(s))' % len(rebuilt),
+              msg='the wavelength image is padded by spec_append() like a flux image and is rebuilt after the loop only %s: when plates differ in pixel count the '
+                  'wavelengths of the shorter spectra are 0 beyond their own length instead of COEFF0 + COEFF1*pixel'
+                  % ('under `align`' if pols == {True} else 'on some paths' if pols else 'nowhere'), construct='loglam not rebuilt after padding')
+
+
 def check_spec_append(ctx, repo):
     f = repo.func(SPEC1D, 'spec_append')
     fa = FA(f)
@@ -548,5 +595,6 @@ def check_no_memo(ctx, repo):
 
 def run(ctx):
     check_readspec(ctx, ctx.repo)
+    check_location(ctx, ctx.repo)
     check_no_memo(ctx, ctx.repo)
     check_spec_append(ctx, ctx.repo)
